@@ -22,8 +22,8 @@ ASSUMPTIONS = ["line boundaries in generated text are \\n only",
                "regex patterns in the pool cannot match the empty string; capture groups are ignored (reference = spans of re.finditer)",
                "split() without separator, maxsplit and encode are outside the statement and not generated"]
 
-SEPS = [" ", ",", "a", "ab", ", ", "\n", "zz", "  ", "b,"]
-REGEXES = [r"\s+", "a+", ",|b", "(a)(b)?", r"[ ,]+", r"\n"]
+SEPS = [" ", ",", "a", "ab", ", ", "\n", "zz", "  ", "b,", ".", "a+", ",|b", "[ab]", "(a)"]
+REGEXES = [r"\s+", "a+", ",|b", "(a)(b)?", r"[ ,]+", r"\n", ".", "[ab]", "(a)", ","]
 DELEGATED = [
     ("upper", ()), ("lower", ()), ("title", ()), ("swapcase", ()), ("capitalize", ()),
     ("casefold", ()), ("strip", ()), ("strip", ("a",)), ("lstrip", ()), ("lstrip", ("ab",)),
@@ -100,6 +100,8 @@ def pieces_positions(text, method, args, kwargs):
 
 
 def run_case(ctx, case):
+    if case.get("method") == "join" and "sep" in case:
+        return run_join(ctx, case)
     try:
         _run_case(ctx, case)
     except obs.ObservationFailed as ex:
@@ -203,6 +205,30 @@ def _run_case(ctx, case):
         ctx.judge(False, case, mech="C15:operand-changed")
 
 
+def run_join(ctx, case):
+    """native join: same text as str.join on the plain texts, for any iterable of items"""
+    sep, items, how = case["sep"], case["items"], case["iterable"]
+    vsep = obs.build(sep)
+    vals = [i if isinstance(i, str) else obs.build(i) for i in items]
+    texts = [i if isinstance(i, str) else obs.text_of(obs.spec_cells(i)) for i in items]
+    want_text = obs.text_of(obs.spec_cells(sep)).join(texts)
+    want = []
+    for k, i in enumerate(items):
+        if k:
+            want += obs.spec_cells(sep)
+        want += obs.observe(i) if isinstance(i, str) else obs.spec_cells(i)
+    arg = {"list": lambda: vals, "tuple": lambda: tuple(vals), "iter": lambda: iter(vals),
+           "generator": lambda: (v for v in vals), "map": lambda: map(lambda v: v, vals)}[how]()
+    try:
+        r = vsep.join(arg)
+    except Exception as ex:  # noqa
+        ctx.judge(False, case, mech="C15:join", expected=want_text, got=repr(ex))
+        return
+    problems, got = obs.result_problems(r, want)
+    ctx.judge(not problems, case, ("C15", "join", repr(case)), "C15:join", want_text,
+              obs.show(got) if got is not None else None, problems, nontrivial=bool(want))
+
+
 def calls_for(text):
     L = len(text)
     out = []
@@ -210,6 +236,10 @@ def calls_for(text):
         out.append(("split", (sep,), {}))
     for rx in REGEXES:
         out.append(("split", (rx,), {"regex": True}))
+    # the same string once more in the other mode (literal after regex and back)
+    out.append(("split", (".",), {}))
+    out.append(("split", ("a+",), {}))
+    out.append(("split", (",",), {"regex": True}))
     out.append(("splitlines", (), {}))
     out.append(("splitlines", (False,), {}))
     out.append(("splitlines", (True,), {}))
@@ -223,7 +253,7 @@ def calls_for(text):
     return out
 
 
-ALPHA = ["a", "b", "A", " ", ",", "\n", "\t", "ß", "1"]
+ALPHA = ["a", "b", "A", " ", ",", "\n", "\t", "ß", "1", ".", "+"]
 
 
 def run(ctx):
@@ -261,3 +291,8 @@ def run(ctx):
         for m, a, kw in calls_for(text):
             run_case(ctx, {"spec": spec, "method": m, "args": list(a), "kwargs": kw})
         ctx.count("random_layouts")
+        items = [rng.choice(["", "x", "yz"]) if rng.random() < .4 else obs.rand_spec(rng, 2, 3, "ab ", palette=obs.PALETTE)
+                 for _ in range(rng.randint(0, 4))]
+        run_join(ctx, {"method": "join", "sep": obs.rand_spec(rng, 2, 2, ",-", palette=obs.PALETTE), "items": items,
+                       "iterable": rng.choice(["list", "tuple", "iter", "generator", "map"])})
+        ctx.count("joins")
